@@ -29,14 +29,18 @@ EXTENDS Integers, Sequences, TLC
 \* "eofd": one more good message arrives in the same read as the peer's close
 \* "idle": (server with ReadTimeout) nothing arrives for longer than the timeout; the library gives the
 \* connection up: the transport must be closed by the end of the step, and the channels with it
-Terminators == {"x", "xt", "xbig", "eof", "eofd", "rerr", "lclose", "mp", "mhp", "heof", "idle"}
+\* "mw": a good message whose handler answers it, the transport refusing the first write attempt with a temporary
+\* error (the retry succeeds): the connection is as alive as before
+\* "heofd": as "heof", with one more good message in the same fragment behind the one whose handler is running:
+\* it was received before the peer closed and is delivered once the handler returns
+Terminators == {"x", "xt", "xbig", "eof", "eofd", "rerr", "lclose", "mp", "mhp", "heof", "heofd", "idle"}
 Requests(ev) == IF ev \in {"mh", "mm", "cn", "mhp"} THEN 1 ELSE 0
-Delivers(ev) == CASE ev \in {"m", "mh", "m2", "mp", "mhp", "heof", "eofd"} -> 1 [] ev = "mm" -> 2 [] OTHER -> 0
+Delivers(ev) == CASE ev \in {"m", "mh", "mw", "m2", "mp", "mhp", "heof", "eofd"} -> 1 [] ev \in {"mm", "heofd"} -> 2 [] OTHER -> 0
 
 \* has the reader switched to the pipe (is the copier running) when message k is read?  A request made
 \* by a handler takes effect at the next read; one made from another goroutine while the reader is
 \* parked takes effect at the read after the one in progress, i.e. once something was read in between.
-ReadsSomething(ev) == ev \in {"m", "mh", "mm", "m1", "m2"}
+ReadsSomething(ev) == ev \in {"m", "mh", "mw", "mm", "m1", "m2"}
 Switched(sched, k) == \E i \in 1..(k - 1) :
                          \/ sched[i] \in {"mh", "mm"}
                          \/ sched[i] = "cn" /\ \E j \in (i + 1)..(k - 1) : ReadsSomething(sched[j])
@@ -51,7 +55,7 @@ Check(sched, steps, k, nreq, ndel, term) ==
        IN IF o.panic THEN <<"panic">>
           ELSE IF o.hung THEN <<"closenotify-call-did-not-return">>
           ELSE IF ev = "idle" /\ ~o.tclosed THEN <<"not-terminated-after-read-timeout">>
-          ELSE IF ev = "heof" /\ Switched(sched, k) /\ (\E i \in 1..Len(o.held) : ~o.held[i]) THEN <<"not-closed-while-handler-runs">>
+          ELSE IF ev \in {"heof", "heofd"} /\ Switched(sched, k) /\ (\E i \in 1..Len(o.held) : ~o.held[i]) THEN <<"not-closed-while-handler-runs">>
           ELSE IF Len(o.chans) # nreq2 THEN <<"harness-channel-count">>
           ELSE IF ~term2 /\ (\E i \in 1..Len(o.chans) : o.chans[i]) THEN <<"closed-before-termination">>
           ELSE IF term2 /\ (\E i \in 1..Len(o.chans) : ~o.chans[i]) THEN
